@@ -30,9 +30,9 @@ CFG = {
     "assumptions": ["the application keeps receiving from Events() (PostEventBlocking blocks by design otherwise)",
                     "real time abstracted: time-outs are nondeterministic labels of the LTS",
                     "runes delivered by the parser are valid code points (string([]rune) is the identity)"],
-    "level_text": "Proved: (1) the bodies of handleSequence, parseMouseEvent and Resize, regenerated from the source on every run as terms of the "
+    "level_text": "Proved: (1) the bodies of handleSequence, parseMouseEvent, Resize, parseColorReply, QueryColor/Foreground/Background and CursorPosition, regenerated from the source on every run as terms of the "
                   "GoBody statement language and EXECUTED by an interpreter, are the hand model for all decoders, states and sequences "
-                  "(handleSequence_body_eq_model, parseMouse_body_eq_model, parseColorReply_body_eq_model, queryColor_body_eq_model / queryFgBg_body_eq_model (the three requesters as trace + result), events_exact_body: same new state, same effects in order, each send written as the LTS "
+                  "(handleSequence_body_eq_model, parseMouse_body_eq_model, parseColorReply_body_eq_model, queryColor_body_eq_model / queryFgBg_body_eq_model (the three colour requesters as trace + result), cursorPosition_body_eq_model, events_exact_body: same new state, same effects in order, each send written as the LTS "
                   "assumes - blocking post / non-blocking post / select+default / select+time-out -, same early returns and breaks, a panic "
                   "exactly where the model has one; bodies_fully_recognised, body_never_stuck, body_sends_never_bare; lts_input_is_body: the "
                   ".input label of the LTS is a run of that body); (2) over that model and the LTS of the input goroutine, event queue, reply "
